@@ -11,7 +11,7 @@ SPEC = dict(
                 "mutation under the same commit is refused), <= 2/3 valid power is refused, Verify soundness (adjacent link; > 1/3 trusted "
                 "signed power on either signature path; basic checks of the go-header wrapper), re-encoding keeps fields, hash and "
                 "Validate verdict and - for basically valid untrusted commits - the Verify verdict, MsgID is the commit's block id. The model is re-validated on every run against the real code on "
-                "~1400 (quick) generated headers / pairs; hashes and ed25519 are symbolic (Dolev-Yao)."),
+                "~1200 (quick) generated headers / pairs; hashes and ed25519 are symbolic (Dolev-Yao)."),
     rule=("chains of real signed headers over validator sets of 1,2,3,4,5,7,10 keys with equal / random / whale / multiple-of-three / "
           "zero-power distributions and validator-set changes; 57 mutation operators (every raw-header field: flip, empty, wrong length, "
           "neighbour's value; DAH roots change/swap/transpose/add/remove/empty/neighbour/oversize; commit height/round/block id; signatures "
